@@ -5,6 +5,7 @@ import OsmVerif.Oracle.C15
 import OsmVerif.Oracle.C19
 import OsmVerif.Oracle.C14
 import OsmVerif.Oracle.C20
+import OsmVerif.Oracle.C11
 /-! Line-protocol driver: one case per input line `<Cxx> <op> <payload…>`, one output line each. -/
 open OsmVerif.Oracle
 
@@ -17,6 +18,8 @@ def dispatch (line : String) : String :=
   | "C19" :: rest => C19.handle rest
   | "C14" :: rest => C14.handle rest
   | "C20" :: rest => C20.handle rest
+  | "C11" :: rest => C11.handle rest
+  | "C12" :: rest => C11.handle rest
   | _ => "bad-op"
 
 partial def loop (h : IO.FS.Stream) (out : IO.FS.Stream) : IO Unit := do
